@@ -1,5 +1,7 @@
 import FrappyModel.Spec.C01
 import FrappyModel.Base.NumCompat
+import FrappyModel.Datatypes.Variants
+import FrappyModel.Datatypes.CompatUsers
 /-
 C03 — Datatype descriptions, copies and compatibility verdicts are faithful.
 
@@ -244,6 +246,196 @@ def judgeCompat (a b : DType F) (verdict : Verdict) (ws : List (Witness F)) : Li
   | .pass => if ws.any (fun w => Frappy.Spec.C01.inSetB a w.value && !w.accepted) then ["sound"] else []
   | .bad => if nestedB a b then ["complete"] else []
   | .other _ => if nestedB a b then ["complete"] else []
+
+/-! ## derived datatype classes (`TextType`, `LimitsType`, `StatusType`)
+
+A derived class has the kind — and the description — of the class it derives from; `LimitsType` narrows the
+value set of its kind to *ordered* pairs ("accepts an ordered tuple of numeric member types"). -/
+
+open Frappy.Datatypes (CType)
+
+/-- `a < b` for two numbers of one number kind -/
+def NumLt : PVal F → PVal F → Prop
+  | .float x, .float y => lt x y = true
+  | .int i, .int j => i < j
+  | _, _ => False
+
+instance (a b : PVal F) : Decidable (NumLt a b) := by
+  unfold NumLt; split <;> infer_instance
+
+mutual
+/-- every pair held where the type has a `LimitsType` is ordered: the maximum is not below the minimum -/
+def OrderedIn : CType F → PVal F → Prop
+  | .limits m, v =>
+    match v with
+    | .tuple [x, y] => ¬ NumLt y x ∧ OrderedIn m x ∧ OrderedIn m y
+    | _ => True
+  | .array e _ _, v =>
+    match v with
+    | .tuple vs => ∀ x ∈ vs, OrderedIn e x
+    | _ => True
+  | .tuple es, v =>
+    match v with
+    | .tuple vs => OrderedZip es vs
+    | _ => True
+  | .struct ms _ _, v =>
+    match v with
+    | .dict fields => ∀ kv ∈ fields, OrderedMember ms kv.1 kv.2
+    | _ => True
+  | .leaf _, _ => True
+  | .text _, _ => True
+  | .status _, _ => True
+def OrderedZip : List (CType F) → List (PVal F) → Prop
+  | t :: ts, v :: vs => OrderedIn t v ∧ OrderedZip ts vs
+  | _, _ => True
+def OrderedMember : List (String × CType F) → String → PVal F → Prop
+  | [], _, _ => True
+  | (k, t) :: rest, key, v => if k = key then OrderedIn t v else OrderedMember rest key v
+end
+
+mutual
+def decOrderedIn : (a : CType F) → (v : PVal F) → Decidable (OrderedIn a v)
+  | .limits m, v => by
+    unfold OrderedIn
+    split
+    · have := decOrderedIn m; infer_instance
+    · infer_instance
+  | .array e _ _, v => by
+    unfold OrderedIn
+    split
+    · have : ∀ x, Decidable (OrderedIn e x) := decOrderedIn e; infer_instance
+    · infer_instance
+  | .tuple es, v => by
+    unfold OrderedIn
+    split
+    · exact decOrderedZip es _
+    · infer_instance
+  | .struct ms _ _, v => by
+    unfold OrderedIn
+    split
+    · have : ∀ k x, Decidable (OrderedMember ms k x) := decOrderedMember ms; infer_instance
+    · infer_instance
+  | .leaf _, _ => by unfold OrderedIn; infer_instance
+  | .text _, _ => by unfold OrderedIn; infer_instance
+  | .status _, _ => by unfold OrderedIn; infer_instance
+def decOrderedZip : (ts : List (CType F)) → (vs : List (PVal F)) → Decidable (OrderedZip ts vs)
+  | t :: ts, v :: vs => by
+    unfold OrderedZip
+    have := decOrderedIn t v
+    have := decOrderedZip ts vs
+    infer_instance
+  | [], _ => by unfold OrderedZip; infer_instance
+  | _ :: _, [] => by unfold OrderedZip; infer_instance
+def decOrderedMember : (ms : List (String × CType F)) → (k : String) → (v : PVal F) → Decidable (OrderedMember ms k v)
+  | [], _, _ => by unfold OrderedMember; infer_instance
+  | (k, t) :: rest, key, v => by
+    unfold OrderedMember
+    have := decOrderedIn t v
+    have := decOrderedMember rest key v
+    infer_instance
+end
+
+instance (a : CType F) (v : PVal F) : Decidable (OrderedIn a v) := decOrderedIn a v
+
+/-- the value set of a tree with derived classes: the set of its kind tree, pairs of a `LimitsType` ordered -/
+def InSetC (a : CType F) (v : PVal F) : Prop := InSet a.erase v ∧ OrderedIn a v
+
+/-- what the monitor decides (`InSetM` for `InSet`, as in C01) -/
+def inSetCB (a : CType F) (v : PVal F) : Bool := Frappy.Spec.C01.inSetB a.erase v && decide (OrderedIn a v)
+
+mutual
+/-- wherever the second type demands ordered pairs (a `LimitsType`) the first does so as well — recursion over the
+second type, the first followed by position (`tupleMembers?`: the members of any tuple class) -/
+def limitsCovered : CType F → CType F → Bool
+  | _, .leaf _ => true
+  | _, .text _ => true
+  | _, .status _ => true
+  | a, .limits m' =>
+    match a with
+    | .limits m => limitsCovered m m'
+    | _ => false
+  | a, .array e' _ _ =>
+    match a with
+    | .array e _ _ => limitsCovered e e'
+    | _ => true
+  | a, .tuple es' => limitsCoveredList (a.tupleMembers?.getD []) es'
+  | a, .struct ms' _ _ =>
+    match a with
+    | .struct ms _ _ => limitsCoveredFields ms ms'
+    | _ => true
+def limitsCoveredList : List (CType F) → List (CType F) → Bool
+  | x :: xs, y :: ys => limitsCovered x y && limitsCoveredList xs ys
+  | _, _ => true
+def limitsCoveredFields : List (String × CType F) → List (String × CType F) → Bool
+  | _, [] => true
+  | ms, (k, t') :: rest =>
+    (match CType.member? ms k with
+     | some t => limitsCovered t t'
+     | none => true) && limitsCoveredFields ms rest
+end
+
+/-- the value set of `a` is nested in the one of `b` for the pairings of the statement, derived classes taken as
+the kind they are described as: the kind trees are nested, and no `LimitsType` of `b` meets anything but a
+`LimitsType` of `a` (a plain tuple holds unordered pairs as well) -/
+def NestedC (a b : CType F) : Prop := Nested a.erase b.erase ∧ limitsCovered a b = true
+
+instance (a b : CType F) : Decidable (NestedC a b) := by unfold NestedC; infer_instance
+
+def nestedCB (a b : CType F) : Bool := decide (NestedC a b)
+
+/-- every value valid for `a` is valid for `b` -/
+def SoundC (a : CType F) (accepts : PVal F → Prop) : Prop := ∀ v, InSetC a v → accepts v
+
+/-- `judgeCompat` for trees with derived classes -/
+def judgeCompatC (a b : CType F) (verdict : Verdict) (ws : List (Witness F)) : List String :=
+  match verdict with
+  | .pass => if ws.any (fun w => inSetCB a w.value && !w.accepted) then ["sound"] else []
+  | .bad => if nestedCB a b then ["complete"] else []
+  | .other _ => if nestedCB a b then ["complete"] else []
+
+/-! ## commands: the argument goes to the other command, the result comes back from it -/
+
+open Frappy.Datatypes (CmdType) in
+/-- a command can stand in for another one: both take an argument or none and every argument valid here is valid there,
+both give a result or none and every result of the other is valid here -/
+def NestedCmd (a b : CmdType F) : Prop :=
+  (match a.argument, b.argument with
+   | none, none => True
+   | some x, some y => NestedC x y
+   | _, _ => False) ∧
+  (match a.result, b.result with
+   | none, none => True
+   | some x, some y => NestedC y x
+   | _, _ => False)
+
+open Frappy.Datatypes (CmdType) in
+instance (a b : CmdType F) : Decidable (NestedCmd a b) := by
+  unfold NestedCmd
+  have : Decidable (match a.argument, b.argument with
+   | none, none => True
+   | some x, some y => NestedC x y
+   | _, _ => False) := by split <;> infer_instance
+  have : Decidable (match a.result, b.result with
+   | none, none => True
+   | some x, some y => NestedC y x
+   | _, _ => False) := by split <;> infer_instance
+  infer_instance
+
+open Frappy.Datatypes (CmdType) in
+/-- clauses a verdict of `CommandType.compatible` breaks: a passing one when one command takes an argument (gives a
+result) and the other does not, or by a witness — an argument of `a` refused by `b`'s argument type, a result of `b`
+refused by `a`'s result type; a refusing one on a nested pair -/
+def judgeCmd (a b : CmdType F) (verdict : Verdict) (wsArg wsRes : List (Witness F)) : List String :=
+  match verdict with
+  | .pass =>
+    (if a.argument.isSome != b.argument.isSome || a.result.isSome != b.result.isSome then ["sound"] else []) ++
+    (match a.argument with
+     | some x => if wsArg.any (fun w => inSetCB x w.value && !w.accepted) then ["sound"] else []
+     | none => []) ++
+    (match b.result with
+     | some y => if wsRes.any (fun w => inSetCB y w.value && !w.accepted) then ["sound"] else []
+     | none => [])
+  | _ => if decide (NestedCmd a b) then ["complete"] else []
 
 /-! ## equivalence of a rebuilt / copied type -/
 
